@@ -197,7 +197,14 @@ def run_shard(binp, pool_job, jobs, tag, watchdog_ms=5000):
     return lines, incidents
 
 
-def run_jobs(binp, jobs, watchdog_ms=5000):
+T_START = time.time()
+
+
+def progress(msg):
+    print(f"[{PID}] +{time.time() - T_START:6.0f}s {msg}", flush=True)
+
+
+def run_jobs(binp, jobs, watchdog_ms=5000, label=None):
     """distributes jobs (each must carry a unique "id") over NPROC workers"""
     pool_job = {"mode": "pool", "items": [{"name": p["name"], "src": p["src"]} for p in P.POOL]}
     nw = C.NPROC
@@ -213,10 +220,18 @@ def run_jobs(binp, jobs, watchdog_ms=5000):
     lines, incidents = [], []
     with concurrent.futures.ThreadPoolExecutor(max_workers=nw) as ex:
         futs = [ex.submit(run_shard, binp, pool_job, s, str(k), watchdog_ms) for k, s in enumerate(shards) if s]
-        for f in futs:
+        done = 0
+        last = time.time()
+        for f in concurrent.futures.as_completed(futs):
             l, i = f.result()
             lines += l
             incidents += i
+            done += 1
+            if label and (time.time() - last > 20 or done == len(futs)):
+                last = time.time()
+                npanic = sum(1 for x in lines if "panic" in x)
+                progress(f"{label}: {done}/{len(futs)} shards done, {npanic} panics caught so far, "
+                         f"{len(incidents)} hangs/aborts")
     return lines, incidents
 
 
@@ -253,7 +268,7 @@ def call_jobs(entries, tier, seed, only=None):
         jobs.append({"mode": "calls", "id": jid[0], "module": module, "fn": fn, "form": form, "pools": pools,
                      "sample": sample, "all": all_, "cost": max(1, cost or n)})
 
-    n3 = 300 if tier == "quick" else 60000
+    n3 = 300 if tier == "quick" else 30000
     for e in entries:
         module, fn = e["module"], e["name"]
         if e["kind"] != "fn" or (module, fn) in EXCLUDED_ENTRIES:
@@ -276,7 +291,7 @@ def call_jobs(entries, tier, seed, only=None):
             job(module, fn, form, [allp[0], allp[1]])
         if typed:
             # the same function called as module.fn(receiver, ...) with the module as instance
-            job(module, fn, "f", [recv, allp[1]], sample={"n": 200 if tier == "quick" else 100000, "seed": seed * 7919 + jid[0]})
+            job(module, fn, "f", [recv, allp[1]], sample={"n": 200 if tier == "quick" else 20000, "seed": seed * 7919 + jid[0]})
         job(module, fn, form, [recv, allp[1], allp[2]], sample={"n": n3, "seed": seed * 104729 + jid[0]})
     return jobs
 
@@ -406,9 +421,9 @@ def text_jobs(tier, seed, first_id, binp=None):
     dist["char-noise"] = n_noise
     fam = G.format_family(tier, rng)
     dist["format-spec family (value x spec scripts)"] = len(fam)
-    lim = G.limit_family(tier)
+    lim = G.limit_family(tier, rng)
     bps = calibrate_fillers(binp, tier) if binp else {}
-    cal = G.calibrated_jump_programs(bps, tier)
+    cal = G.calibrated_jump_programs(bps, tier, rng)
     dist["size-scaled limit family"] = len(lim)
     dist["jump-distance family (calibrated to 2^8 / 2^16 bytes)"] = len(cal)
     dist["bytes_per_filler_statement"] = {k: round(v, 2) for k, v in bps.items()}
@@ -464,7 +479,13 @@ def sweep(chk, binp, tier, seed, modelled_jobs=None):
     alljobs = jobs + extra + tjobs + mjobs
     byid = {j["id"]: j for j in alljobs}
     t0 = time.time()
-    lines, inc = run_jobs(binp, alljobs, watchdog_ms=5000 if tier == "quick" else 20000)
+    calls_like = jobs + extra + mjobs
+    progress(f"sweep: {len(calls_like)} call jobs ({sum(j.get('cost', 1) for j in calls_like)} calls), "
+             f"{len(tjobs)} text jobs")
+    lines, inc = run_jobs(binp, calls_like, watchdog_ms=5000, label="core-library calls")
+    l2, i2 = run_jobs(binp, tjobs, watchdog_ms=5000 if tier == "quick" else 15000, label="source texts")
+    lines += l2
+    inc += i2
     stats["sweep_wall_s"] = round(time.time() - t0, 1)
     fails = []
     hist = {}
@@ -547,8 +568,10 @@ def run(tier, seed):
     except ImportError:
         M = None
     model_ok = False
+    progress(f"tier {tier}, seed {seed}: building coq/safe and checking the pinned theorems")
     if M is not None:
         model_ok, axioms = M.theorems(chk)
+    progress("theorems done; building kh_safe")
 
     # ---- D (+ the implementation side of R)
     binp, blog = C.build_harness("kh_safe")
@@ -568,7 +591,9 @@ def run(tier, seed):
     # ---- R
     disagreements = []
     if M is not None and model_ok:
+        progress("sweep done; evaluating the models on the same argument tuples (coqc, vm_compute)")
         disagreements = M.compare(chk, bylines, byid)
+        progress("correspondence done")
     elif M is not None:
         chk.oblige("corr:model-vs-core-library outcome classes", False, "model unavailable")
 
